@@ -205,10 +205,32 @@ def main(argv):
             return 0
         ctx = Ctx(a.pid, tier, seed, mod.LEVEL)
         ctx.extra['copulas_path'] = os.path.dirname(copulas.__file__)
-        mod.run(ctx)
+        # watchdog: a check that does not finish (a call of the library that never returns, outside the places that carry their own
+        # wall-clock limit) ends as a machinery failure instead of hanging for ever
+        import signal
+        limit = int(os.environ.get('VERIF_WATCHDOG') or (3000 if tier == 'quick' else 6 * 3600))
+
+        def _watchdog(signum, frame):
+            raise MachineryError('watchdog: the check did not finish within %d s' % limit)
+        signal.signal(signal.SIGALRM, _watchdog)
+        signal.alarm(limit)
+        try:
+            mod.run(ctx)
+        finally:
+            signal.alarm(0)
         return ctx.finish()
     except (MachineryError, tlcmod.TlcError) as e:
         print('MACHINERY-FAILURE: %s' % e)
+        if 'watchdog' in str(e):
+            # worker processes of a pool may still be spinning: take the whole process group down with us
+            try:
+                import multiprocessing
+                for p in multiprocessing.active_children():
+                    p.kill()
+            except Exception:
+                pass
+            sys.stdout.flush()
+            os._exit(2)
         return 2
     except Exception:
         tb = traceback.format_exc()
